@@ -138,10 +138,14 @@ CLAIMS = {
     "C13": {
         "text": "The id generator is modelled with one step per atomic operation; uniqueness and freshness of every id handed out are "
                 "proved for EVERY schedule of ANY number of threads and requests, with DatabaseFull exactly at exhaustion and no counter "
-                "wrap before; the sequential generator of the build model is proved to refine it. The real ConcurrentNodeIds runs on "
+                "wrap before; the sequential generator of the build model is proved to refine it. The build half is a theorem too: the "
+                "whole forest chain is proved for an ARBITRARY fresh id supply (C13_build_any_supply), any finite sequence of ids is a "
+                "generator state (IdGen.ofSeq), so the build that consumes the ids handed out under any schedule of any number of "
+                "requesters, in any arrangement, yields a valid forest (C13_build_every_schedule) - a thread schedule changes only which "
+                "fresh ids each task receives. The real ConcurrentNodeIds runs on "
                 "instrumented atomics under a controlled scheduler: >10^5 exhaustively/systematically explored schedules must match the "
                 "model step for step; multi-threaded builds (1-16 threads) are checked by the forest predicates.",
-        "note": COMMON_NOTE + " Each atomic cell is sequentially consistent in the model; weak-memory effects beyond per-operation atomicity are not modelled.",
+        "note": COMMON_NOTE + " Each atomic cell is sequentially consistent in the model; weak-memory effects beyond per-operation atomicity are not modelled. That the rayon tasks of a build share nothing but the id generator (immutable snapshot, private scratch file, writes applied by the single writer) is read off the code and checked by the forest predicates on 2-16 thread builds, not proved.",
         "technique": "Lean 4 invariant proof over all schedules + schedule-controlled replay of the real generator",
     },
     "C15": {
